@@ -95,6 +95,9 @@ def make_ds(records):
         def keep(self, f):
             return self
 
+        def apply(self, f):
+            return f(self)
+
         def __getattr__(self, n):
             if n in layouts.FRAGMENTS:
                 return lambda *a: self
@@ -197,7 +200,7 @@ def run_reload(lay, seq):
     return steps
 
 
-ORDINARY = ("module", "def", "method", "if-block", "try-block", "module-eof")
+ORDINARY = ("module", "def", "method", "if-block", "try-block", "module-eof", "method-tabs", "def-if-tabs")
 
 
 def supported(meta):
@@ -220,7 +223,7 @@ def supported(meta):
         return False
     if any(c[0] == "sel" for c in calls):
         return False
-    if shape in ("ifexp", "tuple", "semicolon", "otherarg", "mixed3"):
+    if shape in ("ifexp", "tuple", "semicolon", "otherarg", "mixed3", "enclosing", "enclosing-apply"):
         return False
     same_line = {"line": [(0, 1)], "funny": [(0, 1)], "wrap2": [(0, 1)], "line3": [(0, 1), (1, 2), (0, 2)]}.get(shape, [])
     for i, j in same_line:
@@ -252,7 +255,7 @@ class C03(Check):
 
     def spaces(self, tier):
         Q = tier == "quick"
-        styles = ("one", "brk", "str", "fstr0", "fstr1", "coll", "uni") if Q else layouts.STYLES
+        styles = ("one", "brk", "str", "fstr0", "fstr1", "coll", "uni", "clo") if Q else layouts.STYLES
         ctxs = layouts.CONTEXTS
         return [
             Space("two-calls", {"ops": layouts.OPS, "params": layouts.PARAMS, "styles": styles, "contexts": ctxs},
